@@ -455,6 +455,24 @@ func genStream(r *hx.Rng, tier string, w io.Writer, adversarial bool) {
 	if tier == "thorough" {
 		nScen, nBlob = 120, 12000
 	}
+	// --- the very first blobs this process decodes: a forgery under the proposer's address with a foreign key, THEN the
+	// genuine items (decoding must not depend on what was decoded before)
+	{
+		c0 := buildChain(r, 1, 3)
+		fmt.Fprintf(w, "reset ih=1 gt=%d pa=%s start=0\n", baseTime, paHex())
+		fg0 := c0.forgeries(r)
+		fmt.Fprintf(w, "blob da=1 %s\n", blobArgs(fg0["hdr-foreign-key-proposer-address"]))
+		fmt.Fprintf(w, "blob da=1 %s\n", blobArgs(fg0["data-foreign-key-proposer-address"]))
+		fmt.Fprintf(w, "place da=1 %s\n", blobArgs(fg0["hdr-foreign-key-proposer-address"]))
+		for h := c0.ih; h <= c0.top; h++ {
+			fmt.Fprintf(w, "place da=%d %s genuine=h:%d\n", 1+(h%2), blobArgs(c0.hdr[h]), h)
+			if b, ok := c0.dat[h]; ok {
+				fmt.Fprintf(w, "place da=%d %s genuine=d:%d\n", 1+(h%2), blobArgs(b), h)
+			}
+		}
+		fmt.Fprintln(w, "tick")
+		fmt.Fprintf(w, "p2phdr %s\n", blobArgs(c0.hdr[c0.ih]))
+	}
 	// --- single blobs through handlePotentialHeader / handlePotentialData (malformed stream + forgeries)
 	c := buildChain(r, 1, 6)
 	fmt.Fprintf(w, "reset ih=1 gt=%d pa=%s start=0\n", baseTime, paHex())
@@ -641,14 +659,44 @@ func genStream(r *hx.Rng, tier string, w io.Writer, adversarial bool) {
 			}
 			fmt.Fprintf(w, "place da=%d %s%s\n", da, blobArgs(b), g)
 		}
+		// third-party flood (C03: third-party material must not keep the node from following the proposer's chain):
+		// 120 / 230 junk and forged blobs IN FRONT of the proposer's blobs, at one DA height or at several
+		var floodAt []uint64
+		if (adversarial && s%3 == 0) || (!adversarial && s%7 == 2) {
+			nf := 1
+			if s%2 == 0 {
+				nf = 2 + r.Intn(2)
+			}
+			for k := 0; k < nf; k++ {
+				da := start + uint64(r.Intn(int(maxDA)))
+				floodAt = append(floodAt, da)
+				n := []int{120, 230}[r.Intn(2)]
+				for j := 0; j < n; j++ {
+					if j%40 == 7 {
+						nm := names[r.Intn(len(names))]
+						if nm != "data-foreign-key-no-metadata" {
+							place(da, fg[nm], "")
+							continue
+						}
+					}
+					place(da, []byte{0xf0, byte(j), byte(j >> 8), byte(k)}, "")
+				}
+			}
+		}
+		pick := func() uint64 {
+			if len(floodAt) > 0 && r.Chance(60) {
+				return floodAt[r.Intn(len(floodAt))]
+			}
+			return start + uint64(r.Intn(int(maxDA)))
+		}
 		// genuine blobs at random DA heights (many per height, out of height order)
 		for h := c.ih; h <= c.top; h++ {
-			place(start+uint64(r.Intn(int(maxDA))), c.hdr[h], fmt.Sprintf("h:%d", h))
+			place(pick(), c.hdr[h], fmt.Sprintf("h:%d", h))
 			if b, ok := c.dat[h]; ok {
-				place(start+uint64(r.Intn(int(maxDA))), b, fmt.Sprintf("d:%d", h))
+				place(pick(), b, fmt.Sprintf("d:%d", h))
 			}
 			if r.Chance(15) { // duplicates
-				place(start+uint64(r.Intn(int(maxDA))), c.hdr[h], fmt.Sprintf("h:%d", h))
+				place(pick(), c.hdr[h], fmt.Sprintf("h:%d", h))
 			}
 		}
 		nj := r.Intn(6)
@@ -713,10 +761,14 @@ func genStream(r *hx.Rng, tier string, w io.Writer, adversarial bool) {
 			}
 			var outs []string
 			for k := 0; k <= r.Intn(3); k++ {
-				outs = append(outs, []string{"errids", "errget:0", "future", "notfound", "ok", "errids"}[r.Intn(6)])
+				outs = append(outs, []string{"errids", "errget:0", "future", "notfound", "ok", "errids", "notfoundtext", "futuretext", "errgettext:0"}[r.Intn(9)])
 			}
 			if s%7 == 3 && da == start+1 {
 				outs = strings.Split(strings.TrimSuffix(strings.Repeat("errids,", 11), ","), ",") // a whole pass fails
+			}
+			if s%4 == 1 && da == start {
+				// a proxied DA answers every listing of an empty height with a text-only "not found"
+				outs = strings.Split(strings.TrimSuffix(strings.Repeat("notfoundtext,", 12), ","), ",")
 			}
 			fmt.Fprintf(w, "script da=%d outcomes=%s\n", da, strings.Join(outs, ","))
 		}
